@@ -10,6 +10,7 @@ type DecorSpec struct {
 	Space  bool     `json:"space"`  // DextraSpace
 	Right  bool     `json:"right"`  // DindentRight
 	Needs  []int    `json:"needs"`  // extra 'x' characters per call (cycled)
+	Glyph  int      `json:"glyph"`  // what the extra characters are: 0 "x", 1 a double-width rune, 2 "x" + a combining mark
 	Listen bool     `json:"listen"` // implements ShutdownListener
 	Ewma   bool     `json:"ewma"`   // implements EwmaDecorator
 	Avg    bool     `json:"avg"`    // carries the library's average ETA / speed decorators (AverageDecorator)
